@@ -212,6 +212,52 @@ def ob_stage(n: int, i: int, j: int, same_target: bool, k: int = 0) -> Optional[
     return None
 
 
+def _combos():
+    """stdout to a file *and* stderr into the pipe on one stage (`cmd o> f e>p | next`): every spelling pair"""
+    outs = [x for x in SPELLINGS if (ref_decode(x) or ("",))[0] == "file" and ref_decode(x)[1] == "out"]
+    errp = [x for x in SPELLINGS if (ref_decode(x) or ("",))[0] == "pipe" and ref_decode(x)[1] == "err"]
+    return [(a, b) for a in outs for b in errp]
+
+
+def _pipeline_combo(nstages, pair, pos, background):
+    """Stage `pos` diverts stdout to a file and sends stderr down the pipe; every other stage is plain."""
+    _install()
+    cmds = []
+    for k in range(nstages):
+        cmd = [f"c{k}", "x"]
+        if k == pos:
+            cmd += [(pair[0], "f0"), (pair[1],)]
+        cmds.append(cmd)
+        if k < nstages - 1:
+            cmds.append("|")
+    if background:
+        cmds.append("&")
+    tag = f"{cmds}"
+    try:
+        specs = S.cmds_to_specs(list(cmds), captured="hiddenobject")
+    except xt.XonshError as e:
+        return f"spurious-error: {tag}: {e}"
+    for k in range(nstages - 1):
+        up, down = specs[k], specs[k + 1]
+        pipes = [p for p in up.pipe_channels if isinstance(p, ModelPipe)]
+        if len(pipes) != 1:
+            return f"wiring: {tag}: stage {k} owns {len(pipes)} pipes"
+        p = pipes[0]
+        if down.stdin != p.read_fd:
+            return f"wiring: {tag}: stage {k + 1} stdin is {down.stdin!r}, not the read end of the pipe from stage {k}"
+        if k == pos:
+            if not isinstance(up.stdout, ModelFile):
+                return f"wiring: {tag}: stage {k} stdout is {up.stdout!r}, expected the file f0"
+            if up.stderr != p.write_fd:
+                return f"wiring: {tag}: stage {k} stderr is {up.stderr!r}, expected the write end {p.write_fd}"
+        else:
+            if up.stdout != p.write_fd:
+                return f"wiring: {tag}: stage {k} stdout is {up.stdout!r}, expected the write end {p.write_fd} (unredirected stdout goes to the next stage)"
+            if up.stderr is not None:
+                return f"wiring: {tag}: stage {k} stderr is {up.stderr!r}, expected the terminal"
+    return None
+
+
 def _pipeline(nstages, sp, pos, background):
     _install()
     d = ref_decode(sp) if sp is not None else None
@@ -279,8 +325,19 @@ def _pipeline(nstages, sp, pos, background):
     return None
 
 
-def ob_pipeline(nstages: int, has_redirect: bool, i: int, pos: int, background: bool) -> Optional[str]:
-    if not (2 <= nstages <= 3 and 0 <= i < len(SPELLINGS) and 0 <= pos < nstages):
+def ob_pipeline(nstages: int, has_redirect: bool, i: int, pos: int, background: bool, combo: bool) -> Optional[str]:
+    if not (2 <= nstages <= 4 and 0 <= i < len(SPELLINGS) and 0 <= pos < nstages):
+        raise Skip()
+    if combo:
+        pairs = _combos()
+        if has_redirect or not (0 <= i < len(pairs)) or pos >= nstages - 1:
+            raise Skip()
+        r = concretely(_pipeline_combo, _pick([2, 3, 4], nstages - 2), _pick(pairs, i), _pick([0, 1, 2], pos), True if background else False)
+        if r:
+            k, rest = r.split(":", 1)
+            return viol(k, lambda: rest.strip())
+        return None
+    if nstages > 3:
         raise Skip()
     if not has_redirect and (i != 0 or pos != 0):
         raise Skip()
@@ -434,7 +491,8 @@ OBLIGATIONS = [
                timeout={"quick": 240, "thorough": 600},
                symbolic="two spelling indices"),
     Obligation("pipeline_wiring", ob_pipeline,
-               bounds=f"pipelines of 2..3 stages, optional redirect (any of the {NSP} spellings) on any stage, optional trailing '&'",
-               pre=[f"0 <= i < {NSP}", "0 <= pos < 3"], parts={"quick": [dict(nstages=2), dict(nstages=3)]}, timeout={"quick": 240, "thorough": 600},
+               bounds=f"pipelines of 2..3 stages, optional redirect (any of the {NSP} spellings) on any stage, optional trailing '&'; "
+                      "pipelines of 2..4 stages where one non-last stage diverts stdout to a file and sends stderr into the pipe (every spelling pair)",
+               pre=[f"0 <= i < {NSP}", "0 <= pos < 3"], parts={"quick": [dict(nstages=2), dict(nstages=3), dict(nstages=4, combo=True, has_redirect=False)]}, timeout={"quick": 240, "thorough": 600},
                symbolic="spelling index, stage position, background flag"),
 ]
